@@ -96,12 +96,75 @@ func ValidateJSONLDMap(docMap map[string]interface{}, options ...ValidateOpts) e
 		return errors.New("JSON-LD doc has different structure after compaction")
 	}
 
+	if opts.strict && definesBlankNodeTerm(docMap) {
+		return errors.New("JSON-LD doc defines a term as a blank node identifier: " +
+			"properties under such a term are not part of the RDF dataset")
+	}
+
 	err = validateContextURIPosition(opts.contextURIPositions, docMap)
 	if err != nil {
 		return fmt.Errorf("validate context URI position: %w", err)
 	}
 
 	return nil
+}
+
+// definesBlankNodeTerm tells whether an inline context anywhere in the document maps a term (or the vocabulary) to a
+// blank node identifier. Conversion to RDF drops every property whose IRI is a blank node, so such a property survives
+// compaction unchanged while no linked data signature covers it.
+func definesBlankNodeTerm(v interface{}) bool {
+	switch t := v.(type) {
+	case map[string]interface{}:
+		for k, x := range t {
+			if k == "@context" && contextDefinesBlankNodeTerm(x) {
+				return true
+			}
+
+			if definesBlankNodeTerm(x) {
+				return true
+			}
+		}
+	case []interface{}:
+		for _, x := range t {
+			if definesBlankNodeTerm(x) {
+				return true
+			}
+		}
+	}
+
+	return false
+}
+
+func contextDefinesBlankNodeTerm(ctx interface{}) bool {
+	const blankNodePrefix = "_:"
+
+	switch c := ctx.(type) {
+	case []interface{}:
+		for _, x := range c {
+			if contextDefinesBlankNodeTerm(x) {
+				return true
+			}
+		}
+	case map[string]interface{}:
+		for term, def := range c {
+			switch d := def.(type) {
+			case string:
+				if (term == "@vocab" || !strings.HasPrefix(term, "@")) && strings.HasPrefix(d, blankNodePrefix) {
+					return true
+				}
+			case map[string]interface{}:
+				if id, ok := d["@id"].(string); ok && strings.HasPrefix(id, blankNodePrefix) {
+					return true
+				}
+
+				if scoped, ok := d["@context"]; ok && contextDefinesBlankNodeTerm(scoped) {
+					return true
+				}
+			}
+		}
+	}
+
+	return false
 }
 
 func validateContextURIPosition(contextURIPositions []string, docMap map[string]interface{}) error {
